@@ -95,7 +95,10 @@ type Env struct {
 	Uses []useRec
 }
 
-func newEnv(u *Universe) *Env { return &Env{U: u, FailAt: -1, CancelAt: -1} }
+func newEnv(u *Universe) *Env { return &Env{U: u, FailAt: -1, CancelAt: -1, C12: defaultC12, Ext: genUses} }
+
+// defaultC12 is the script/css universe of worlds that mix uses into general trees.
+var defaultC12 *c12u
 
 func (e *Env) point(kind, key string) bool {
 	if e.Static {
@@ -305,9 +308,19 @@ func (e *Env) Build(n *Node) templ.Component {
 	panic("unknown node kind " + n.K)
 }
 
+// genUses, when set, lets genSpec mix script / css / once uses into general trees (C14).
+var genUses map[*Node]*nodeExt
+
 // genSpec draws a general render tree (C10, C11, C14).
 func genSpec(t *kernel.Tape, budget *int, depth int) *Node {
 	*budget--
+	if genUses != nil && t.Chance(1, 4, "use-leaf") {
+		n := genUseLeaf(t, genUses, 3)
+		if n.K == "oncewith" {
+			n.K = "lit"
+		}
+		return n
+	}
 	leaf := []string{"lit", "lit0", "lit100", "text", "textmulti", "attr", "boolattr", "spread", "condattr", "href", "style", "comment", "rawel", "scriptexpr", "raw", "hwfail", "block", "noslot"}
 	big := []string{"lit4000", "lit4090", "lit6000"}
 	inner := []string{"seq", "el", "ifelse", "switch", "callnoblock", "callblock", "passdownblock", "flush", "join", "gojoin", "hwwrap", "oncebody", "slotcall", "slottwicecall"}
